@@ -35,7 +35,7 @@ func c03run(c GCase, memoExpr map[int]bool, memoNT []bool, plain bool) c03outcom
 	out := c03outcome{counts: map[string]int{}}
 	g := *c.G
 	g.Memo = memoNT
-	h := &gram.Hooks{NoMemo: plain}
+	h := &gram.Hooks{NoMemo: plain, ShareLeaves: true}
 	budgetOnly := func(nt int, p parsley.Parser) parsley.Parser {
 		return parser.Func(func(ctx *parsley.Context, lrc data.IntMap, pos parsley.Pos) (parsley.Node, data.IntSet, parsley.Error) {
 			gd.Tick(ctx)
